@@ -32,6 +32,25 @@ def trace_cfg(front, dev):
     return p
 
 
+def check_witnesses(module, cfg_all, names):
+    """Each witness W_x == ~(situation) must be VIOLATED (the situation is reachable). One short TLC run
+    per witness (TLC stops at the first violation), run concurrently."""
+    from concurrent.futures import ThreadPoolExecutor
+    base = open(cfg_all).read()
+
+    def one(w):
+        p = cfg_all.replace('.cfg', '-%s.cfg' % w)
+        lines = [l for l in base.splitlines() if not l.startswith('INVARIANT') and not l.startswith('PROPERTY')]
+        with open(p, 'w') as f:
+            f.write('\n'.join(lines) + '\nINVARIANT %s\n' % w)
+        r = tlc.run(module, p, workers=2, heavy=False, timeout=600, tag='w-' + w)
+        return w, r.violated
+    with ThreadPoolExecutor(len(names)) as ex:
+        for w, v in ex.map(one, names):
+            if v != w:
+                raise tlc.MachineryError('witness %s not reachable (TLC reported %r)' % (w, v))
+
+
 def stage_a(ctx, configs, witnesses_front='v2'):
     """configs: list of (label, cfgpath). Exhaustive TLC runs with coverage."""
     cov_total = {}
@@ -48,10 +67,7 @@ def stage_a(ctx, configs, witnesses_front='v2'):
             raise tlc.MachineryError('vacuous: NdnPit action %s never taken in stage A' % a)
     ctx.extra.setdefault('action_coverage', {}).update(cov_total)
     wp = mc_cfg('pit-w', witnesses_front, 2, 3, 'small', 'v2two', invs=WITNESSES, props=[])
-    rw = tlc.run('NdnPitMC', wp, workers=4, heavy=False, extra=['-continue'])
-    for w in WITNESSES:
-        if ('Invariant %s is violated' % w) not in rw.out:
-            raise tlc.MachineryError('witness %s not reachable' % w)
+    check_witnesses('NdnPitMC', wp, WITNESSES)
 
 
 def events_of_path(path, vmap=None):
